@@ -276,3 +276,25 @@ PROPS["C07"] = dict(
                "of the rejected hash), which the node keeps for any block it has seen.",
     assumptions=["the execution function is deterministic (C06)", "mutants are re-sealed by the harness: sealing (C08) is not in question here"],
 )
+
+PROPS["C10"] = dict(
+    lean_modules=["QuaiVerif.Props.C10"],
+    areas=[dict(name="c10", n_quick=4, n_thorough=40, seeds_thorough=3, n_search=12, timeout=3000)],
+    facts=["rollback_writes"],
+    rule="a case is one fork scenario on real zone nodes: node X builds a common prefix of 8-17 blocks and branch A (1-5 blocks); node Y (fresh database) "
+         "replays the prefix and builds branch B (1-5 blocks) with independent activity (spends of pre-fork outputs, outputs created and spent on the same "
+         "branch, trimming, coinbase lockup creation / accumulation / claims, conversions); B is handed to X as side blocks, X is switched to B's tip by the "
+         "real SetCurrentHeader, extends B with 0-3 blocks of its own (pool re-injected A's transactions, so same-block create-and-spend occurs), and is "
+         "switched back to A and forth again up to 3 more times; half the cases run with the address index on. After every switch X's 'ut', 'cl', address "
+         "index, canonical number->hash map and head pointers are compared with a node that only ever followed the winning branch",
+    level_text="'rollback inverts a block / a segment', 'a reorg equals following the new branch from the common ancestor', 'switching back restores the "
+               "original state' and 'no residue per key' are Lean theorems over the ledger + undo-record model for all branch pairs and block contents that block "
+               "processing can produce (per-key invariant by induction over a block's actions); the order of the rollback writes is regenerated from "
+               "SetCurrentHeader and must equal the modelled one; the model, fed the real blocks' actions, must reach the same ledger digest as the real "
+               "node after every block, rollback and switch.",
+    level_note="Modelled not verified: how Process derives a block's actions (C01/C13) - they are read from the block's undo records; the address index and "
+               "canonical map are compared between nodes (T3) but not modelled. The theorem's hypothesis 'no lockup record is re-created after being deleted in "
+               "the same block' holds in the code because inbound ETXs precede transactions in a block the worker builds; a block that violated it "
+               "(C10_counterexample_recreate_after_delete) is not constructible without foreign block assembly and was not exercised.",
+    assumptions=["outpoints are unique (tx / ETX hashes do not repeat)", "a block's trimming pass only touches outputs created by an older block"],
+)
